@@ -564,7 +564,8 @@ func checkCookie(cc *cookieCase) string {
 var cookieKeys = []string{"k", "session_id", "a-b.c", "A1", "__Host-x", "!#$%&'*+-.^_`|~"}
 var cookieValues = []string{"", "v", "abc123", "a=b", "x%20y", "a/b?c", "!#$&'()*+-./:<=>?@[]^_`{|}~", "1,2"}
 var cookieDomains = []string{"", "example.com", ".example.com", "a.b.c"}
-var cookiePaths = []string{"", "/", "/a/b", "/a b", "/%41"}
+// "/%2541", "/a%2520b": SetPath decodes once, the cookie then holds (and writes) a literal %XX, which parsing must not decode again
+var cookiePaths = []string{"", "/", "/a/b", "/a b", "/%41", "/%2541", "/a%2520b/%252e%252e"}
 
 func TestC17CookieExhaustive(t *testing.T) {
 	rec := ev.New("cookie-exhaustive")
@@ -632,6 +633,9 @@ func TestC17CookieRandom(t *testing.T) {
 		}
 		if rapid.Bool().Draw(t, "path") {
 			cc.Path = "/" + gen(valueChars, "path", 0, 20)
+			if rapid.IntRange(0, 3).Draw(t, "doubleEncoded") == 0 {
+				cc.Path += rapid.SampledFrom([]string{"%2541", "%2520", "%252f", "%25", "%2525"}).Draw(t, "escapedPercent") + gen(valueChars, "pathTail", 0, 4)
+			}
 		}
 		if rapid.Bool().Draw(t, "maxAge") {
 			cc.MaxAge = rapid.IntRange(1, 1<<31-1).Draw(t, "maxAgeV")
